@@ -612,11 +612,11 @@ async def kill_case(backend, seed, trials, counters, history, refs):
     rp = {"mode": "e2e", "backend": backend, "seed": seed, "trials": trials}
 
     async def feed(srv, events, wait_all):
-        c = await e2e.Client(srv, "feed").connect()
+        c = await e2e.Client(srv, "feed").connect(timeout=30)
         for ev in events:
             await c.send(["EVENT", ev])
         if wait_all:
-            await c.wait_for(lambda fr: sum(1 for m in fr if isinstance(m, list) and m[:1] == ["OK"]) >= len(events), timeout=120)
+            await c.wait_for(lambda fr: sum(1 for m in fr if isinstance(m, list) and m[:1] == ["OK"]) >= len(events), timeout=60)
         return c
 
     # calibration: the same history through the real server without a kill must end in the reference state
@@ -633,44 +633,69 @@ async def kill_case(backend, seed, trials, counters, history, refs):
         return viols, nontrivial, inconcl
     bump(counters, "e2e_calibrations")
     for t in range(trials):
+        worker_only = t % 2 == 1
         srv = e2e.Server(backend=backend, workers=1)
         srv.start()
         c = await feed(srv, history, False)
         await asyncio.sleep(r.random() * span * 1.1)
         acked_true = sum(1 for _, m in ok_frames(c) if len(m) == 4 and m[2] is True)
         acked = len(ok_frames(c))
-        srv.kill()
-        await c.close()
+        if worker_only:
+            # only the worker dies (SIGKILL); the gunicorn master stays and forks a new one
+            old = srv.worker_pids()
+            for pid in old:
+                try:
+                    os.kill(pid, signal.SIGKILL)
+                except OSError:
+                    pass
+            t0 = time.time()
+            while time.time() - t0 < 30:
+                new = srv.worker_pids()
+                if new and not set(new) & set(old):
+                    break
+                await asyncio.sleep(0.05)
+            await c.close()
+            bump(counters, "e2e_worker_kills")
+            await asyncio.sleep(0.5)
+        else:
+            srv.kill()
+            await c.close()
         bump(counters, "e2e_kills")
+        where = "worker-kill" if worker_only else "kill"
         try:
             state = c07.dump_files(backend, srv.dir)
         except Exception as e:
-            viols.append({"key": "e2e/%s/kill/store-unreadable" % backend, "msg": "[e2e %s] after SIGKILL the store cannot be read: %r" % (backend, e), "replay": rp})
+            viols.append({"key": "e2e/%s/%s/store-unreadable" % (backend, where), "msg": "[e2e %s] after SIGKILL the store cannot be read: %r" % (backend, e), "replay": rp})
+            srv.kill()
             continue
         js = index.get(state)
         if js is None:
-            viols.append({"key": "e2e/%s/kill/torn-state" % backend,
-                          "msg": "[e2e %s] SIGKILL of the server %d acknowledgements into a history of %d events left a store that is not the state after any prefix of the history"
-                                 % (backend, acked, len(history)), "replay": rp})
+            viols.append({"key": "e2e/%s/%s/torn-state" % (backend, where),
+                          "msg": "[e2e %s] SIGKILL of the %s %d acknowledgements into a history of %d events left a store that is not the state after any prefix of the history"
+                                 % (backend, "worker process" if worker_only else "server", acked, len(history)), "replay": rp})
+            srv.kill()
             continue
         j = max(js)
         bump(counters, "e2e_kill_states_matched")
         bump(counters.setdefault("e2e_kill_prefix_hist", {}), str(min(9, 10 * j // max(1, len(history)))))
         if 0 < j < len(history):
-            nontrivial.append(h(["e2e-kill", backend, j]))
+            nontrivial.append(h(["e2e-kill", backend, j, worker_only]))
         if backend == "sql" and j < acked:
-            viols.append({"key": "e2e/sql/kill/acknowledged-not-committed",
-                          "msg": "[e2e sql] %d EVENT messages had been answered when the server was killed, the store holds the state after only %d" % (acked, j), "replay": rp})
-        # restart on the same files and apply the rest: the final state must be the reference final state
-        srv.start()
+            viols.append({"key": "e2e/sql/%s/acknowledged-not-committed" % where,
+                          "msg": "[e2e sql] %d EVENT messages had been answered when the %s was killed, the store holds the state after only %d" % (acked, "worker" if worker_only else "server", j), "replay": rp})
+        # restart on the same files (or: the respawned worker) and apply the rest: the final state must be the reference final state
+        if not worker_only:
+            srv.start()
         c = await feed(srv, history[j:], True)
+        unanswered = len(history[j:]) - len(ok_frames(c))
         await c.close()
         srv.stop()
         final = c07.dump_files(backend, srv.dir)
         bump(counters, "e2e_recoveries")
         if final != refs[-1]:
-            viols.append({"key": "e2e/%s/kill/later-events-not-applied-after-restart" % backend,
-                          "msg": "[e2e %s] after a SIGKILL at prefix %d and a restart, feeding the remaining %d events does not lead to the fault-free final state" % (backend, j, len(history) - j), "replay": rp})
+            viols.append({"key": "e2e/%s/%s/later-events-not-applied-after-%s" % (backend, where, "respawn" if worker_only else "restart"),
+                          "msg": "[e2e %s] after a SIGKILL of the %s at prefix %d, feeding the remaining %d events to the %s does not lead to the fault-free final state (%d of them were never answered)"
+                                 % (backend, "worker" if worker_only else "server", j, len(history) - j, "respawned worker" if worker_only else "restarted server", unanswered), "replay": rp})
     return viols, nontrivial, inconcl
 
 
